@@ -241,7 +241,7 @@ def main():
         tp = ['coq build failed%s' % (' at %s:%s' % m.groups() if m else '')] + tp
     if tp and pid == 'C12':
         # name the call sites the static lock-discipline theorem rejects
-        q = os.path.join(CACHE, 'lockq-%d.v' % os.getpid())
+        q = os.path.join(CACHE, 'lockq_%d.v' % os.getpid())
         open(q, 'w').write('From Coq Require Import List String.\nFrom UV Require Import LockOrder.\nFrom UVG Require Import LockSites.\n'
                            'Eval vm_compute in List.filter (fun s => under_cfg s && (is_net (cs_callee s) || mem (cs_callee s) (reach gen_calls gen_fns is_net) '
                            '|| mem (cs_callee s) lockers || mem (cs_callee s) (reach gen_calls gen_fns (fun c => mem c lockers)) '
